@@ -22,7 +22,7 @@ try:
             print('mut: %r occurs %d times in %s' % (old, t.count(old), f)); sys.exit(3)
         open(p, 'w').write(t.replace(old, new))
     env = dict(os.environ, NL_REPO=d)
-    r = subprocess.run([sys.executable, os.path.join(HERE, 'check.py')] + props, env=env, stdout=subprocess.PIPE, stderr=subprocess.STDOUT, text=True)
+    r = subprocess.run([sys.executable, os.path.join(HERE, 'check.py')] + props, env=env, stdout=subprocess.PIPE, stderr=subprocess.STDOUT, text=True, timeout=int(os.environ.get('MUT_TIMEOUT', '400')))
     show_all = os.environ.get('MUT_VERBOSE')
     for line in r.stdout.split('\n'):
         if show_all or line.startswith(('VIOLATION', 'CHECKER-ERROR', '== ', '--- violation', '    at ', 'Traceback', 'KNOWN')) or 'Error' in line:
